@@ -4,7 +4,7 @@ From Verif Require Import Sx Str.
 From Verif.Gen Require Import Tokenizer.
 From Verif.Model Require Import TokBase TokHand C02.
 From Verif.Spec Require Import TokSpec.
-From Verif.Proofs Require Import C02a C02b C02dict C02sim C02simtac C02simmain.
+From Verif.Proofs Require Import C02a C02b C02dict C02sim C02simtac C02cdata C02simmain.
 Import ListNotations.
 Local Open Scope N_scope.
 
@@ -70,6 +70,24 @@ Theorem c02_equals_whatwg_when_cdata_not_allowed : forall s0 t i,
     rev (out sf) = flat (rev (out mf)) /\ inp sf = sinp mf /\ st sf = sst mf.
 Proof. exact tokenizer_equals_whatwg_no_cdata. Qed.
 
+(* CDATA SECTIONS ALLOWED.  The same for every run that does not meet U+0000 inside a CDATA section
+   ([covered_cdata]: html5lib's one-step scan for "]]>" is proved equal to the first occurrence of "]]>", and to
+   S_tok's three CDATA states, Proofs/C02cdata.v; with a U+0000 in the section html5lib emits U+FFFD and an error
+   where the standard's tokenizer emits U+0000 -- the recorded finding, and the only thing left out). *)
+Theorem c02_refines_whatwg_with_cdata : forall s0 t cd i n mf,
+  start_state s0 = true ->
+  run_cov_cdata n (init_tk s0 CNone t cd i) = Some mf ->
+  run_loop n (init_tk s0 CNone t cd i) = Some mf /\
+  exists n' sf, sp_run n' (init_tk s0 CNone t cd i) = Some sf /\
+                (forall n'' sf', sp_run n'' (init_tk s0 CNone t cd i) = Some sf' -> sf' = sf) /\
+                rev (out sf) = flat (rev (out mf)) /\ inp sf = sinp mf /\ st sf = sst mf.
+Proof. exact tokenizer_refines_whatwg_cdata. Qed.
+
+(* html5lib's CDATA scan finds exactly the first "]]>" (or takes everything when there is none), for every input *)
+Theorem c02_cdata_scan_is_first_terminator : forall fuel acc i, (length i <= fuel)%nat ->
+  cdata_loop fuel acc i = (acc ++ fst (csplit i), snd (csplit i)).
+Proof. exact cdata_loop_is_csplit. Qed.
+
 (* the same from ANY related pair of configurations (mid-run, any state, any current token of the right kind) *)
 Theorem c02_refinement_from_any_configuration : forall n m s mf,
   R m s -> wk m = true -> run_cov n m = Some mf ->
@@ -88,7 +106,7 @@ Example c02_refinement_example :
   end.
 Proof. vm_compute. split; reflexivity. Qed.
 
-(* PARTIAL.  Outside [covered] -- CDATA sections -- and for the glue between the model and the Python source
-   (the translator's statement vocabulary, the hand-modelled methods, the input stream), the
-   equality of the two machines is decided by running both (and the implementation) on generated inputs on
-   every check -- a test, not a proof. *)
+(* PARTIAL.  Left out of the theorems: a U+0000 inside a CDATA section (recorded finding).  The glue between the
+   model and the Python source (the translator's statement vocabulary, the hand-modelled methods, the input
+   stream) is decided by running the model and the implementation on generated inputs on every check, and S_tok is
+   a transcription of the standard -- a test and a trusted text, not proofs. *)
